@@ -63,10 +63,16 @@ def classify_params(it):
 E = frozenset()
 
 
-def analyse(facts, fpath):
+def analyse(facts, fpath, all_params=False, interest=None):
+    """interest: optional {id(node): expr-getter}; the (data|ctrl) dependency set of the expression at the moment
+    the node is reached is recorded in the returned Flow object's `.seen` dict (joined over visits)."""
     it = facts.items[fpath]
     body = facts.hir[fpath]
     vals, outs, inouts, other = classify_params(it)
+    if all_params:
+        vals = [(l, n) for l, n in vals + other + outs if n != "self"]
+        vals = list(dict.fromkeys(vals))
+        outs, other = [], []
     out_lids = {l for l, _ in outs}
     findings = []
     d0 = {}
@@ -255,6 +261,14 @@ def analyse(facts, fpath):
 
     fl = Flow(facts, join, transfer, guard=guard, closure_mode="maybe", loops_at_least_once=True)
     fl.exit_hook = exit_hook
+    fl.seen = {}
+    if interest:
+        def visit(n, st):
+            g = interest.get(id(n))
+            if g is not None:
+                dd, cc = deps(g(n), st)
+                fl.seen[id(n)] = fl.seen.get(id(n), frozenset()) | dd | cc
+        fl.visit_hook = visit
     fl.run(body, init)
     V = {n for _, n in vals}
     results = []
